@@ -270,30 +270,249 @@ func inCycle(b *ssa.BasicBlock) bool {
 type emitSite struct {
 	call     *ssa.Call
 	op       string // opcode constant name ("" if not constant)
+	lastOp   string // the last opcode the call emits (differs from op only for a helper that emits several)
 	operands []ssa.Value
 	known    bool // operand list statically known
+	posVal   ssa.Value // the value that carries the position of the instruction (the call; the first result of a helper that hands the position back)
+	handed   bool      // a helper emitted it and handed the position back
 }
 
-func emitSites(p *Program, a *anchors, fn *ssa.Function) []emitSite {
-	oc := p.Opcodes()
-	var out []emitSite
+// position: the value through which the emitted instruction's position travels.
+func (e emitSite) position() ssa.Value {
+	if e.posVal != nil {
+		return e.posVal
+	}
+	return e.call
+}
+
+// handsBackPosition: g is a method of the compiler that emits a jump with a
+// placeholder operand, does not patch it, and returns its position (first
+// result) on every successful return: the caller has to patch it.
+var handBackCache = map[*ssa.Function]*emitSite{}
+
+func handsBackPosition(p *Program, a *anchors, g *ssa.Function) *emitSite {
+	if g == nil || g == a.emit || g == a.compile || g == a.changeOperand || len(g.Blocks) == 0 || !recvNamed(g, "", "Eval") {
+		return nil
+	}
+	if e, ok := handBackCache[g]; ok {
+		return e
+	}
+	handBackCache[g] = nil
+	rs := g.Signature.Results()
+	if rs.Len() < 1 || rs.Len() > 2 || !isInt(rs.At(0).Type()) || isEmitHelper(p, a, g) {
+		return nil
+	}
+	var src *emitSite
+	for _, b := range g.Blocks {
+		ret, ok := terminator(b).(*ssa.Return)
+		if !ok || !isSuccessReturn(ret) {
+			continue
+		}
+		os := origins(returnOperand(ret, 0))
+		if len(os) != 1 {
+			return nil
+		}
+		c, ok := os[0].(*ssa.Call)
+		if !ok {
+			return nil
+		}
+		e, ok := emitAt(p, a, c)
+		if !ok || e.op == "" || !e.known || len(e.operands) != 1 {
+			return nil
+		}
+		if _, isConst := e.operands[0].(*ssa.Const); !isConst {
+			return nil
+		}
+		if src != nil && src.call != e.call {
+			return nil
+		}
+		ee := e
+		src = &ee
+	}
+	if src == nil {
+		return nil
+	}
+	handBackCache[g] = src
+	return src
+}
+
+// positionSources: the emits of fn, and the calls of helpers that emit a
+// placeholder jump for fn and hand its position back.
+func positionSources(p *Program, a *anchors, fn *ssa.Function) []emitSite {
+	out := emitSites(p, a, fn)
 	for _, b := range fn.Blocks {
 		for _, ins := range b.Instrs {
-			c, ok := staticCalleeIs(ins, a.emit)
+			c, ok := ins.(*ssa.Call)
 			if !ok {
 				continue
 			}
-			e := emitSite{call: c}
-			args := c.Call.Args
-			// method call: receiver first
-			if len(args) >= 3 {
-				e.op = oc.ssaName(args[1])
-				e.operands, e.known = varargsOf(args[2])
+			src := handsBackPosition(p, a, c.Call.StaticCallee())
+			if src == nil {
+				continue
+			}
+			e := emitSite{call: c, op: src.op, lastOp: src.op, operands: src.operands, known: true, handed: true, posVal: c}
+			if c.Call.Signature().Results().Len() > 1 {
+				e.posVal = nil
+				for _, ref := range *c.Referrers() {
+					if ex, ok := ref.(*ssa.Extract); ok && ex.Index == 0 {
+						e.posVal = ex
+					}
+				}
+				if e.posVal == nil {
+					e.posVal = c // the position is dropped: nothing will match it
+				}
 			}
 			out = append(out, e)
 		}
 	}
 	return out
+}
+
+// emitWrap: a method that does nothing but call the emitter once, with an
+// opcode that is a constant or one of its own parameters and operands that
+// are constants or its own parameters, and hands the position back.
+type emitWrap struct {
+	opIdx    int    // parameter index of the opcode, -1 when constant
+	opConst  string // constant opcode
+	operands []ssa.Value
+	known    bool
+}
+
+var emitWrapCache = map[*ssa.Function]*emitWrap{}
+
+func emitWrapperOf(p *Program, a *anchors, g *ssa.Function) *emitWrap {
+	if g == nil || g == a.emit || g == a.compile || g == a.changeOperand || len(g.Blocks) == 0 || g.Signature.Recv() == nil {
+		return nil
+	}
+	if w, ok := emitWrapCache[g]; ok {
+		return w
+	}
+	emitWrapCache[g] = nil
+	var call *ssa.Call
+	for _, b := range g.Blocks {
+		for _, ins := range b.Instrs {
+			switch x := ins.(type) {
+			case *ssa.Call:
+				if x.Call.StaticCallee() == a.emit {
+					if call != nil {
+						return nil
+					}
+					call = x
+				} else if _, isB := x.Call.Value.(*ssa.Builtin); !isB {
+					return nil
+				}
+			case *ssa.Store:
+				base := x.Addr
+				if ia, ok := base.(*ssa.IndexAddr); ok {
+					base = ia.X
+				}
+				if _, isAlloc := base.(*ssa.Alloc); !isAlloc {
+					return nil
+				}
+			case *ssa.MapUpdate, *ssa.Defer, *ssa.Go, *ssa.If:
+				return nil
+			case *ssa.Return:
+				if len(x.Results) > 1 {
+					return nil
+				}
+			}
+		}
+	}
+	if call == nil || len(call.Call.Args) < 3 {
+		return nil
+	}
+	for _, b := range g.Blocks {
+		if ret, ok := terminator(b).(*ssa.Return); ok && len(ret.Results) == 1 && ret.Results[0] != ssa.Value(call) {
+			return nil
+		}
+	}
+	w := &emitWrap{opIdx: -1}
+	if name := p.Opcodes().ssaName(call.Call.Args[1]); name != "" {
+		w.opConst = name
+	} else {
+		for i, prm := range g.Params {
+			if call.Call.Args[1] == ssa.Value(prm) {
+				w.opIdx = i
+			}
+		}
+		if w.opIdx < 0 {
+			return nil
+		}
+	}
+	w.operands, w.known = varargsOf(call.Call.Args[2])
+	for _, o := range w.operands {
+		switch o.(type) {
+		case *ssa.Const, *ssa.Parameter:
+		default:
+			return nil
+		}
+	}
+	emitWrapCache[g] = w
+	return w
+}
+
+// emitAt: the instruction emits code — a call of the emitter, of a method
+// that only wraps it, or of a helper that back-patches and then emits.
+func emitAt(p *Program, a *anchors, ins ssa.Instruction) (emitSite, bool) {
+	c, ok := ins.(*ssa.Call)
+	if !ok {
+		return emitSite{}, false
+	}
+	g := c.Call.StaticCallee()
+	if g == nil {
+		return emitSite{}, false
+	}
+	oc := p.Opcodes()
+	args := c.Call.Args
+	if g == a.emit {
+		e := emitSite{call: c}
+		if len(args) >= 3 {
+			e.op = oc.ssaName(args[1])
+			e.lastOp = e.op
+			e.operands, e.known = varargsOf(args[2])
+		}
+		return e, true
+	}
+	if w := emitWrapperOf(p, a, g); w != nil {
+		e := emitSite{call: c, op: w.opConst, known: w.known}
+		if w.opIdx >= 0 && w.opIdx < len(args) {
+			e.op = oc.ssaName(args[w.opIdx])
+		}
+		e.lastOp = e.op
+		for _, o := range w.operands {
+			if prm, ok := o.(*ssa.Parameter); ok {
+				for i, q := range g.Params {
+					if q == prm && i < len(args) {
+						o = args[i]
+					}
+				}
+			}
+			e.operands = append(e.operands, o)
+		}
+		return e, true
+	}
+	if w := patchWrapperOf(p, a, g); w != nil && len(w.afterEmits) > 0 {
+		return emitSite{call: c, op: w.afterEmits[0], lastOp: w.afterEmits[len(w.afterEmits)-1], known: true, operands: nil}, true
+	}
+	return emitSite{}, false
+}
+
+func emitSites(p *Program, a *anchors, fn *ssa.Function) []emitSite {
+	var out []emitSite
+	for _, b := range fn.Blocks {
+		for _, ins := range b.Instrs {
+			if e, ok := emitAt(p, a, ins); ok {
+				out = append(out, e)
+			}
+		}
+	}
+	return out
+}
+
+// isEmitHelper: g only wraps the emitter or the patcher (and is read at its
+// call sites, not as a part of the compiler).
+func isEmitHelper(p *Program, a *anchors, g *ssa.Function) bool {
+	return emitWrapperOf(p, a, g) != nil || patchWrapperOf(p, a, g) != nil
 }
 
 // patchSite: one back-patch — a call of the patcher itself, or of a function
@@ -305,51 +524,178 @@ type patchSite struct {
 	target ssa.Value // the value written; nil when it is "here"
 	here   bool      // the target is the length of the program at the call
 	posArg int       // index of the position among the call's written arguments
+	elems  bool      // pos is a slice: every element of it is patched
+	after  []string  // opcodes the helper emits after patching
 }
 
-// patchWrapper: fn only forwards to the patcher; which of its parameters is
-// the position and which (if any) the target.
-func patchWrapper(a *anchors, fn *ssa.Function) (posIdx, targetIdx int, ok bool) {
-	if fn == nil || fn == a.changeOperand || len(fn.Blocks) == 0 {
-		return 0, 0, false
+// origins of the patched position(s).
+func (ps patchSite) origins() []ssa.Value {
+	if ps.elems {
+		return elemOrigins(ps.pos)
 	}
+	return origins(ps.pos)
+}
+
+// patchWrap: what a function that wraps the patcher does.
+type patchWrap struct {
+	posIdx     int  // parameter holding the position(s)
+	elems      bool // … a slice of positions, all of them patched
+	targetIdx  int  // parameter holding the target, -1 for "here"
+	afterEmits []string
+}
+
+var patchWrapCache = map[*ssa.Function]*patchWrap{}
+
+// patchWrapperOf: fn forwards the position it is given (or every position of
+// the slice it is given) to the patcher — directly or through another such
+// function — with the target it was given or the current end of the program,
+// and does nothing else to the program except, afterwards, emit
+// instructions with constant opcodes.
+func patchWrapperOf(p *Program, a *anchors, fn *ssa.Function) *patchWrap {
+	if fn == nil || fn == a.changeOperand || fn == a.emit || fn == a.compile || len(fn.Blocks) == 0 {
+		return nil
+	}
+	if w, ok := patchWrapCache[fn]; ok {
+		return w
+	}
+	patchWrapCache[fn] = nil
 	field := instructionsField(a)
-	n := 0
-	posIdx, targetIdx = -1, -1
+	w := &patchWrap{posIdx: -1, targetIdx: -1}
+	paramIdx := func(v ssa.Value) int {
+		for i, prm := range fn.Params {
+			if v == ssa.Value(prm) {
+				return i
+			}
+		}
+		return -1
+	}
+	var patch *ssa.Call
+	var emits []*ssa.Call
 	for _, b := range fn.Blocks {
 		for _, ins := range b.Instrs {
 			switch x := ins.(type) {
 			case *ssa.Call:
-				if x.Call.StaticCallee() == a.changeOperand && len(x.Call.Args) >= 3 {
-					n++
-					for i, prm := range fn.Params {
-						if x.Call.Args[1] == ssa.Value(prm) {
-							posIdx = i
-						}
-						if x.Call.Args[2] == ssa.Value(prm) {
-							targetIdx = i
-						}
-					}
-					if targetIdx < 0 {
-						if _, isLen := isLenOfField(x.Call.Args[2], field); !isLen {
-							return 0, 0, false
-						}
-					}
-				} else if _, isB := x.Call.Value.(*ssa.Builtin); !isB {
-					return 0, 0, false // does something else as well
+				cal := x.Call.StaticCallee()
+				if _, isB := x.Call.Value.(*ssa.Builtin); isB {
+					continue
 				}
-			case *ssa.Store, *ssa.MapUpdate, *ssa.Defer, *ssa.Go:
-				return 0, 0, false
+				if cal == nil {
+					return nil
+				}
+				var inner *patchWrap
+				if cal != a.changeOperand {
+					inner = patchWrapperOf(p, a, cal)
+				}
+				switch {
+				case cal == a.changeOperand && len(x.Call.Args) >= 3:
+					if patch != nil {
+						return nil
+					}
+					patch = x
+					pos := x.Call.Args[1]
+					if i := paramIdx(pos); i >= 0 {
+						w.posIdx = i
+					} else if ld, ok := pos.(*ssa.UnOp); ok && ld.Op == token.MUL {
+						// every element of a slice parameter, in a loop from the first
+						ia, ok := ld.X.(*ssa.IndexAddr)
+						if !ok || paramIdx(ia.X) < 0 {
+							return nil
+						}
+						_, c, init, step, ok := induction(ia.Index)
+						k0, isC := constInt(init)
+						if !ok || step != 1 || !isC || k0+c != 0 {
+							return nil
+						}
+						w.posIdx, w.elems = paramIdx(ia.X), true
+					} else {
+						return nil
+					}
+					if i := paramIdx(x.Call.Args[2]); i >= 0 {
+						w.targetIdx = i
+					} else if _, isLen := isLenOfField(x.Call.Args[2], field); !isLen {
+						return nil
+					}
+				case inner != nil:
+					if patch != nil || inner.posIdx >= len(x.Call.Args) {
+						return nil
+					}
+					patch = x
+					i := paramIdx(x.Call.Args[inner.posIdx])
+					if i < 0 {
+						return nil
+					}
+					w.posIdx, w.elems = i, inner.elems
+					if inner.targetIdx >= 0 {
+						if inner.targetIdx >= len(x.Call.Args) {
+							return nil
+						}
+						if j := paramIdx(x.Call.Args[inner.targetIdx]); j >= 0 {
+							w.targetIdx = j
+						} else if _, isLen := isLenOfField(x.Call.Args[inner.targetIdx], field); !isLen {
+							return nil
+						}
+					}
+					w.afterEmits = append(w.afterEmits, inner.afterEmits...)
+				default:
+					if e, ok := emitAtNoPatch(p, a, x); ok && e.op != "" {
+						emits = append(emits, x)
+						continue
+					}
+					return nil // does something else as well
+				}
+			case *ssa.Store:
+				base := x.Addr
+				if ia, ok := base.(*ssa.IndexAddr); ok {
+					base = ia.X
+				}
+				if _, isAlloc := base.(*ssa.Alloc); !isAlloc {
+					return nil
+				}
+			case *ssa.MapUpdate, *ssa.Defer, *ssa.Go:
+				return nil
 			}
 		}
 	}
-	return posIdx, targetIdx, n == 1 && posIdx >= 0
+	if patch == nil || w.posIdx < 0 {
+		return nil
+	}
+	// emits come after the patch, on the straight line to the return
+	for _, e := range emits {
+		if !(patch.Block() == e.Block() && instrIndex(patch) < instrIndex(e)) && !(patch.Block() != e.Block() && blockReaches(patch.Block(), e.Block(), nil) && !blockReaches(e.Block(), patch.Block(), nil) && e.Block().Dominates(lastReturnBlock(fn))) {
+			return nil
+		}
+		es, _ := emitAtNoPatch(p, a, e)
+		w.afterEmits = append(w.afterEmits, es.op)
+	}
+	patchWrapCache[fn] = w
+	return w
+}
+
+func lastReturnBlock(fn *ssa.Function) *ssa.BasicBlock {
+	var out *ssa.BasicBlock
+	for _, b := range fn.Blocks {
+		if _, ok := terminator(b).(*ssa.Return); ok {
+			out = b
+		}
+	}
+	return out
+}
+
+// emitAtNoPatch: emitAt without the helpers that patch (used while deciding
+// whether a function is such a helper).
+func emitAtNoPatch(p *Program, a *anchors, c *ssa.Call) (emitSite, bool) {
+	g := c.Call.StaticCallee()
+	if g == a.emit || emitWrapperOf(p, a, g) != nil {
+		return emitAt(p, a, c)
+	}
+	return emitSite{}, false
 }
 
 // patchCalls returns the back-patches of fn.
 func patchCalls(a *anchors, fn *ssa.Function) []patchSite {
 	var out []patchSite
 	field := instructionsField(a)
+	p := curProgram
 	for _, b := range fn.Blocks {
 		for _, ins := range b.Instrs {
 			c, ok := ins.(*ssa.Call)
@@ -368,13 +714,13 @@ func patchCalls(a *anchors, fn *ssa.Function) []patchSite {
 				out = append(out, ps)
 				continue
 			}
-			if pi, ti, ok := patchWrapper(a, cal); ok && pi < len(c.Call.Args) {
-				ps := patchSite{Call: c, pos: c.Call.Args[pi], posArg: pi}
+			if w := patchWrapperOf(p, a, cal); w != nil && w.posIdx < len(c.Call.Args) {
+				ps := patchSite{Call: c, pos: c.Call.Args[w.posIdx], posArg: w.posIdx, elems: w.elems, after: w.afterEmits}
 				if cal.Signature.Recv() != nil {
-					ps.posArg = pi - 1
+					ps.posArg = w.posIdx - 1
 				}
-				if ti >= 0 && ti < len(c.Call.Args) {
-					ps.target = c.Call.Args[ti]
+				if w.targetIdx >= 0 && w.targetIdx < len(c.Call.Args) {
+					ps.target = c.Call.Args[w.targetIdx]
 					if _, isLen := isLenOfField(ps.target, field); isLen {
 						ps.here = true
 					}
@@ -395,11 +741,11 @@ func patchedOpcodes(p *Program, a *anchors) (map[string]bool, []string) {
 	var undec []string
 	for _, fn := range compilerFamily(p, a) {
 		byCall := map[ssa.Value]emitSite{}
-		for _, e := range emitSites(p, a, fn) {
-			byCall[e.call] = e
+		for _, e := range positionSources(p, a, fn) {
+			byCall[e.position()] = e
 		}
 		for _, pc := range patchCalls(a, fn) {
-			for _, o := range origins(pc.pos) {
+			for _, o := range pc.origins() {
 				if e, ok := byCall[o]; ok && e.op != "" {
 					ops[e.op] = true
 				} else {
@@ -436,8 +782,8 @@ func patchAllIn(p *Program, r *Reporter, a *anchors, fn *ssa.Function, J map[str
 	}
 	patchOf := map[ssa.Value][]patchInfo{}
 	for _, pc := range patches {
-		direct := false
-		for _, o := range origins(pc.pos) {
+		direct := pc.elems // a helper that patches the whole list does so at the call
+		for _, o := range pc.origins() {
 			if o == pc.pos {
 				direct = true
 			}
@@ -461,7 +807,11 @@ func patchAllIn(p *Program, r *Reporter, a *anchors, fn *ssa.Function, J map[str
 			patchOf[o] = append(patchOf[o], pi)
 		}
 	}
-	for _, e := range emitSites(p, a, fn) {
+	handedBack := map[*ssa.Call]bool{}
+	if src := handsBackPosition(p, a, fn); src != nil {
+		handedBack[src.call] = true
+	}
+	for _, e := range positionSources(p, a, fn) {
 		if !J[e.op] {
 			continue
 		}
@@ -472,7 +822,24 @@ func patchAllIn(p *Program, r *Reporter, a *anchors, fn *ssa.Function, J map[str
 			continue // operand is a real target already (backward jump)
 		}
 		key := siteKey(p, fn, e.call.Pos(), "placeholder "+e.op)
-		pis := patchOf[e.call]
+		if e.handed {
+			key = siteKey(p, fn, e.call.Pos(), "placeholder "+e.op+" handed back by "+e.call.Call.StaticCallee().Name())
+		}
+		pis := patchOf[e.position()]
+		if len(pis) == 0 && handedBack[e.call] {
+			// the function returns the position: each of its callers is judged
+			// with the call as the placeholder
+			n := 0
+			for _, site := range staticCallSites(p, fn) {
+				if site.Parent() != nil {
+					n++
+				}
+			}
+			if n > 0 {
+				r.OkNT(key, p.Pos(e.call.Pos()), fmt.Sprintf("the position is returned on every successful path: patched by the caller (%d call site(s), judged there)", n))
+				continue
+			}
+		}
 		if len(pis) == 0 {
 			r.Fail(key, p.Pos(e.call.Pos()), "this jump is emitted with a placeholder operand and its position never reaches a back-patch: at run time it jumps to the placeholder value")
 			continue
@@ -623,14 +990,27 @@ func joinPHIn(p *Program, r *Reporter, a *anchors, fn *ssa.Function, field strin
 			fe, fa string
 		}
 		seenSt := map[st]bool{}
-		var explore func(b *ssa.BasicBlock, i int, fe, fa string)
-		explore = func(b *ssa.BasicBlock, i int, fe, fa string) {
+		emitsOf := map[*ssa.Function]map[ssa.Instruction]emitSite{fn: emits}
+		family := map[*ssa.Function]bool{}
+		for _, g := range compilerFamily(p, a) {
+			family[g] = true
+		}
+		var explore func(f *ssa.Function, b *ssa.BasicBlock, i int, fe, fa string, depth int)
+		explore = func(f *ssa.Function, b *ssa.BasicBlock, i int, fe, fa string, depth int) {
+			em := emitsOf[f]
+			if em == nil {
+				em = map[ssa.Instruction]emitSite{}
+				for _, e := range emitSites(p, a, f) {
+					em[e.call] = e
+				}
+				emitsOf[f] = em
+			}
 			for ; i < len(b.Instrs); i++ {
 				ins := b.Instrs[i]
-				if laterSame(ins) {
+				if f == fn && laterSame(ins) {
 					return
 				}
-				if e, ok := emits[ins]; ok {
+				if e, ok := em[ins]; ok {
 					if fe == "" {
 						fe = "emit " + e.op
 					}
@@ -641,8 +1021,35 @@ func joinPHIn(p *Program, r *Reporter, a *anchors, fn *ssa.Function, field strin
 					if fa == "" {
 						fa = "<compile>"
 					}
+				} else if cc := callOf(ins); cc != nil && family[cc.StaticCallee()] && cc.StaticCallee() != a.compile {
+					// a part of the compiler kept in a function of its own: what
+					// it does first
+					fas, mustEmit := firstActions(p, a, cc.StaticCallee())
+					if fa == "" && len(fas) == 1 && !fas["<exit>"] {
+						for k := range fas {
+							fa = k
+						}
+					} else if fa == "" && !fas["<exit>"] {
+						fa = "<several>"
+					}
+					if fe == "" && mustEmit != "" {
+						fe = mustEmit
+					}
 				} else if ret, ok := ins.(*ssa.Return); ok {
 					if isSuccessReturn(ret) {
+						// a helper's return continues after each of its calls
+						if f != a.compile && depth < 3 && (fe == "" || fa == "") {
+							n := 0
+							for _, site := range staticCallSites(p, f) {
+								if g := site.Parent(); g != nil && family[g] {
+									n++
+									explore(g, site.Block(), instrIndex(site.(ssa.Instruction))+1, fe, fa, depth+1)
+								}
+							}
+							if n > 0 {
+								return
+							}
+						}
 						if fe == "" {
 							fe = "<exit>"
 							reachesExit = true
@@ -656,15 +1063,20 @@ func joinPHIn(p *Program, r *Reporter, a *anchors, fn *ssa.Function, field strin
 					return
 				}
 			}
-			for _, s := range b.Succs {
-				k := st{s, fe, fa}
+			for _, sc := range b.Succs {
+				k := st{sc, fe, fa}
 				if !seenSt[k] {
 					seenSt[k] = true
-					explore(s, 0, fe, fa)
+					explore(f, sc, 0, fe, fa, depth)
 				}
 			}
 		}
-		explore(lenCall.Block(), instrIndex(lenCall)+1, "", "")
+		if len(pc.after) > 0 {
+			// the helper that patches goes on to emit: that is what follows the label
+			explore(fn, lenCall.Block(), instrIndex(lenCall)+1, "emit "+pc.after[0], "emit "+pc.after[0], 0)
+		} else {
+			explore(fn, lenCall.Block(), instrIndex(lenCall)+1, "", "", 0)
+		}
 		if len(first) == 0 {
 			// never final: every path re-patches
 			r.OkNT(key+" (provisional)", p.Pos(pc.Pos()), "re-patched on every path")
@@ -674,7 +1086,7 @@ func joinPHIn(p *Program, r *Reporter, a *anchors, fn *ssa.Function, field strin
 		prev := map[string]bool{}
 		walkBackward(lenCall, func(ins ssa.Instruction) bool {
 			if e, ok := emits[ins]; ok {
-				prev["emit "+e.op] = true
+				prev["emit "+e.lastOp] = true
 				return true
 			}
 			if isCompile(ins) {
@@ -1709,4 +2121,68 @@ func temporaryVariable(p *Program, fn *ssa.Function, set ssa.Instruction, cc *ss
 func mustAnchorRun(p *Program) *ssa.Function {
 	a, _ := p.Anchors()
 	return a.vmRun
+}
+
+// firstActions: what a part of the compiler does first on the paths from its
+// entry to a successful return — "emit Op…", "<compile>" (a call of the
+// compiler or of another part) or "<exit>" (nothing) — and, when every such
+// path emits an instruction itself, a description of the first emit.
+func firstActions(p *Program, a *anchors, g *ssa.Function) (map[string]bool, string) {
+	out := map[string]bool{}
+	emits := map[ssa.Instruction]emitSite{}
+	for _, e := range emitSites(p, a, g) {
+		emits[e.call] = e
+	}
+	firstEmits := map[string]bool{}
+	type st struct {
+		b  *ssa.BasicBlock
+		fa bool
+	}
+	seen := map[st]bool{}
+	var walk func(b *ssa.BasicBlock, fa bool)
+	walk = func(b *ssa.BasicBlock, fa bool) {
+		for _, ins := range b.Instrs {
+			if e, ok := emits[ins]; ok {
+				if !fa {
+					out["emit "+e.op] = true
+				}
+				firstEmits["emit "+e.op] = true
+				return
+			}
+			if cc := callOf(ins); cc != nil && cc.StaticCallee() != nil && !fa {
+				if cc.StaticCallee() == a.compile {
+					out["<compile>"] = true
+					fa = true
+				}
+			}
+			if ret, ok := ins.(*ssa.Return); ok {
+				if isSuccessReturn(ret) {
+					if !fa {
+						out["<exit>"] = true
+					}
+					firstEmits["<none>"] = true
+				}
+				return
+			}
+		}
+		for _, sc := range b.Succs {
+			if !seen[st{sc, fa}] {
+				seen[st{sc, fa}] = true
+				walk(sc, fa)
+			}
+		}
+	}
+	if len(g.Blocks) > 0 {
+		walk(g.Blocks[0], false)
+	}
+	must := ""
+	if !firstEmits["<none>"] && len(firstEmits) > 0 {
+		must = "emit <several>"
+		if len(firstEmits) == 1 {
+			for k := range firstEmits {
+				must = k
+			}
+		}
+	}
+	return out, must
 }
